@@ -4,6 +4,7 @@ CONSTANTS
   MaxP = 1
   MaxB = 1
   Ty = "RxSO3"
+  NumBig = FALSE
   Mut = "none"
 INVARIANT ColumnPartition
 INVARIANT SplitIsPartition
